@@ -8,6 +8,8 @@ pub struct Profile {
     pub name: String,
     /// weights: ping, chan, sync chan, timer, gen, exec, stream, comp, comp-transient
     pub kinds: [u32; 9],
+    /// weight of the user-written raw source
+    pub raw: u32,
     pub steps: (u64, u64),
     pub max_sources: usize,
     /// weight of each outside step class:
@@ -39,6 +41,7 @@ fn base(name: &str) -> Profile {
     Profile {
         name: name.into(),
         kinds: [4, 3, 1, 4, 6, 2, 1, 2, 0],
+        raw: 2,
         steps: (10, 40),
         max_sources: 6,
         outside: [10, 5, 4, 4, 3, 22, 25, 1, 0, 0, 2, 2, 0],
@@ -192,6 +195,10 @@ pub fn profile_for(prop: &str, variant: u64, thorough: bool) -> Profile {
 }
 
 fn gen_kind(rng: &mut Rng, p: &Profile) -> Kind {
+    let total: u32 = p.kinds.iter().sum();
+    if p.raw > 0 && rng.below((total + p.raw) as u64) < p.raw as u64 {
+        return Kind::Raw;
+    }
     match rng.weighted(&p.kinds) {
         0 => Kind::Ping,
         1 => Kind::Chan { bound: None },
@@ -358,7 +365,7 @@ pub fn gen_source(rng: &mut Rng, p: &Profile, depth: u32) -> SourceSpec {
     }
     let is_gen = matches!(kind, Kind::Gen { .. });
     let fault = if rng.chance(p.p_fault, 100) {
-        Some(Fault { on: *rng.pick(&[RegCall::Register, RegCall::Register, RegCall::Reregister, RegCall::Unregister]), nth: rng.below(2) as u8, before: rng.chance(1, 2) })
+        Some(Fault { on: *rng.pick(&[RegCall::Register, RegCall::Register, RegCall::Reregister, RegCall::Unregister]), nth: rng.below(2) as u8, before: rng.chance(1, 2), sloppy: rng.chance(1, 4) })
     } else {
         None
     };
